@@ -37,6 +37,19 @@ pub type BatchItem = Item;                            // writer.rs: `use crate::
 //@contract-file fn/writer_persist.c
 //@end
 
+//@extract src/journal/writer.rs :: Writer :: rotate as=rotate_sync_first until=self.persist( props=C09+C02
+//@contract
+    requires old(self).wf(),
+    ensures
+        // an error exit of the prefix is a failed sync: the journal is NOT switched, nothing written is dropped
+        r is Err ==> final(self).file.logical() == old(self).file.logical(), // [C09:failed-rotation-keeps-the-journal]
+//@proof before shim_slice_end
+        proof {
+            // C09: before the writer is pointed at a new file, everything written to the journal being sealed is on the device
+            assert(self.file.inner.synced@ == old(self).file.logical() && self.file.buffered@.len() == 0); // [C09:rotation-syncs-the-sealed-journal-first] [C02:rotation-syncs-the-sealed-journal-first]
+        }
+//@end
+
 //@extract src/journal/writer.rs :: Writer :: write_start props=C03+C02+C13
 //@contract-file fn/writer_write_start.c
 //@proof after encode_into(&mut self.buf)
